@@ -4,7 +4,7 @@ SPEC = dict(
     rule="rapid-generated command sequences (1-60 commands of the documented KV/hash/list/set/zset command set incl. clear/keyexist extensions and multi-key DEL/EXISTS/MGET) over small adversarial per-case pools "
          "(names that are prefixes of each other, contain ':' 0x00 0xff, empty members/values, integer extremes, score ties, fractional and huge scores, negative and out-of-range indexes), sent through the server's redis entry point; "
          "every reply, a read-back of the touched key after every write and of the whole pool at the end are compared with lib/model (errors by class). non-trivial = a collection was emptied and re-created, OR a command repeats a member/field/key, OR a negative/out-of-range index hit a non-empty list/zset. "
-         "Scores at the edge of the number line are drawn into the pool in three cases of eight: inf / -inf / +inf (valid scores) and nan (must be refused, also as the result of ZINCRBY of one infinity onto the other). Grammar exclusions: infinite range bounds on the other side or without sign ('+inf' / 'inf' as min, '-inf' as max, '+' as lexical min, '-' as lexical max: refused with an error instead of selecting nothing - recorded as C08-infinite-range-bound-only-on-its-own-side, not generated while it is open); indexes beyond +-100 (the documented 5000-element fetch limit is computed before clamping); "
+         "Scores at the edge of the number line are drawn into the pool in three cases of eight: inf / -inf / +inf (valid scores) and nan (must be refused, also as the result of ZINCRBY of one infinity onto the other). Grammar exclusions: infinite range bounds on the other side or without sign ('+inf' / 'inf' as min, '-inf' as max, '+' as lexical min, '-' as lexical max: refused with an error instead of selecting nothing - recorded as C08-infinite-range-bound-only-on-its-own-side, not generated while it is open); indexes beyond +-100 (the documented 5000-element fetch limit is computed before clamping); DECR / DECRBY / SMCLEAR (documented, no client-side handler: C08-documented-commands-not-registered); "
          "names containing 0x00 on the mem engine and MGET across partitions while the corresponding known findings are open; the score -0 is generated (a quarter of the cases) and only the sign of a zero and the spelling of an infinity (+Inf for inf) in a sorted-set reply are not compared while C08-negative-zero-score-sign / C08-infinite-score-spelled-go-style are open.",
     assumptions=[
         "reference model lib/model written from Redis semantics + doc/user-guide.md; conventions of its own that are modelled: the extension commands' replies (*CLEAR return 1/0), ZRANGEBYLEX on mixed scores in member order (unspecified in Redis), finite scores print in the shortest form that reads back (strconv 'g'); reply differences from Redis that are recorded as known findings switch the model while they are open (TTL of a missing key, PERSIST without expiry, spelling of an infinite score)",
